@@ -226,6 +226,17 @@ def finish(ctx, config, rng, K, kac, ds, pk33, objs, nonces, msg, it, cls_extra=
             if npo is not None and npo.ret == 1:
                 alts.append(("nonce_negated", pobjs[a], npo.b(1), n66, pko, pkb, psigs[a]))
                 if no is not None and no.ret == 1: alts.append(("value_and_nonce_negated", no.b(1), npo.b(1), n66, pko, pkb, nv))
+        # a public nonce whose effective nonce R1 + b*R2 is the point at infinity (crafted after the session fixed b)
+        k2 = rng.randrange(1, n); B2 = mulG(k2); A2 = mulG((-S.b * k2) % n)
+        if A2 is not None:
+            c66 = ser33(A2) + ser33(B2); cpo = ctx.call("musig_pubnonce_parse", c66, config=config)
+            if cpo is not None and cpo.ret == 1:
+                dlog = ds[x["i"]] if not x["model_only"] else None
+                if dlog is not None:
+                    sv = S.e * K.coef(pkb) * (S.g * K.gacc % n) * dlog % n
+                    vo = ctx.call("musig_partial_sig_parse", b32(sv), config=config)
+                    if vo is not None and vo.ret == 1: alts.append(("effective_nonce_infinity:matching_s", vo.b(1), cpo.b(1), c66, pko, pkb, sv))
+                alts.append(("effective_nonce_infinity:other_s", pobjs[a], cpo.b(1), c66, pko, pkb, psigs[a]))
         Pn = neg(parse_pubkey(pkb)); alts.append(("key_negated", pobjs[a], x["pub"], x["pub66"], pkobj(ctx, config, Pn), ser33(Pn), psigs[a]))
         if no is not None and no.ret == 1: alts.append(("value_and_key_negated", no.b(1), x["pub"], x["pub66"], pkobj(ctx, config, Pn), ser33(Pn), nv))
         for cls, po, pn, pn66, ko, kb, sval in alts:
